@@ -177,11 +177,27 @@ theorem C06_profile {S : Schema} {cv : Conv} {Ptext : Str → Prop} (hS : ReqWF 
 
 example : EntityFree authPlaceholder ∧ EntityFree "NONE".toList := by decide +kernel
 
-/-- **C06_tax** (what is true of the pinned code) — `request_tax1099` composes the same request whatever account
-    number is asked for: the argument is never used -/
-theorem C06_tax_acctnum_ignored {S : Schema} {cv : Conv} (cfg : Cfg) (password : Str) (taxyears : List Str)
-    (acctnum recid : Option Str) (uuidStream : Nat → Str) (dtclient : DT) :
-    requestTax S cv cfg password taxyears acctnum recid uuidStream dtclient =
-      requestTax S cv cfg password taxyears none recid uuidStream dtclient := rfl
+/-- **C06_tax** — `request_tax1099(password, *taxyears, acctnum=…, recid=…)` (as repaired by "fix: request_tax1099
+    passes the account number on"): the sign-on as in `C06_signon`, one `TAX1099MSGSRQV1` holding one `TAX1099TRNRQ`
+    whose `TAX1099RQ` carries exactly the account number and record id asked for (empty = absent) and the tax years in
+    order.  `TAX1099RQ` is an `ElementList`: handled by `mk_fields`; tax years are canonical decimal texts. -/
+theorem C06_tax {S : Schema} {cv : Conv} {Ptext : Str → Prop} (hS : ReqWF S = true) (hT : taxWFB S = true)
+    (hcv : ConvOK cv Ptext) (hy : ConvYear cv) (cfg : Cfg) (password : Str) (taxyears : List Str)
+    (acctnum recid : Option Str) (uuidStream : Nat → Str) (dtclient : DT)
+    (htexts : ∀ s ∈ cfg.texts, Ptext s) (hpw : Ptext password)
+    (hacct : ∀ s, acctnum = some s → Ptext s) (hrec : ∀ s, recid = some s → Ptext s)
+    (hyears : ∀ y ∈ taxyears, ∃ j : Int, y = pyStrInt j)
+    (hu : Ptext (uuidStream 0)) (hne : uuidStream 0 ≠ []) {root : Node}
+    (h : requestTax S cv cfg password taxyears acctnum recid uuidStream dtclient = .ok root) :
+    checkTax S cfg password dtclient taxyears acctnum recid (Int.ofNat cfg.version) root = [] :=
+  requestTax_spec hS hT hcv hy cfg password taxyears acctnum recid uuidStream dtclient htexts hpw hacct hrec hyears
+    hu hne h
+
+example : (∀ y ∈ ["2019".toList, "2020".toList], ∃ j : Int, y = pyStrInt j) := by
+  intro y hy
+  simp only [List.mem_cons, List.mem_nil_iff, or_false] at hy
+  rcases hy with rfl | rfl
+  · exact ⟨2019, by decide⟩
+  · exact ⟨2020, by decide⟩
 
 end Ofx.C06
